@@ -43,9 +43,18 @@ const UnknownTask = 999
 // FirstGhost is the first wait id that stands for "a name that never exists".
 const FirstGhost = 900
 
-// Cmd is one command of a body: p | g | f | s<c> | y<k>.
+// Cmd is one command of a body: p | g | f | x | q | t | s<c> | y<k>.
+//
+//	x  an UNKNOWN command name: RunCommand returns "unknown command", RunLoop records the error and returns
+//	q  a TRUNCATED last command (the text ends inside a double-quoted argument or an unterminated =<<TAG
+//	   value): the reader of RunLoop records the read error and returns; only as the last command of a body
+//	t  a probe that stops the scope it runs in (Scope.Stop: done, NO error): RunLoop may skip the rest, the
+//	   task closes ok; only in a try body without nested submissions (the context is then the body's own)
+//
+// For the monitor x and q are failing commands like f (RunLoop reacts identically: AppendError + return);
+// their `cmd` / `ret … err` events are recorded by a marker command on the line before (script.go).
 type Cmd struct {
-	Kind byte // 'p', 'g', 'f', 's', 'y'
+	Kind byte // 'p', 'g', 'f', 'x', 'q', 't', 's', 'y'
 	Arg  int  // child task id for 's', try number for 'y'
 }
 
@@ -262,7 +271,7 @@ func parseCmds(s string) ([]Cmd, error) {
 		}
 		c := Cmd{Kind: f[0]}
 		switch f[0] {
-		case 'p', 'g', 'f':
+		case 'p', 'g', 'f', 'x', 'q', 't':
 			if len(f) != 1 {
 				return nil, fmt.Errorf("bad command %q", f)
 			}
@@ -436,6 +445,11 @@ func (c *Case) check() error {
 		}
 	}
 	for _, t := range c.Tasks {
+		for i, cmd := range t.Body {
+			if cmd.Kind == 'q' && i != len(t.Body)-1 {
+				return fmt.Errorf("case %s: task %d: a truncated command must be the last one", c.ID, t.ID)
+			}
+		}
 		for _, cmd := range t.Body {
 			if cmd.Kind == 's' && !okTask(cmd.Arg) {
 				return fmt.Errorf("case %s: task %d submits unknown task %d", c.ID, t.ID, cmd.Arg)
